@@ -1,4 +1,5 @@
 P = dict(
+    features={"quick": [None], "thorough": [None, "fixed_point"]},
     bin="egv_c05", trace="Trace_C05", level="model_checking",
     mc=[dict(module="MC_C05", quick_cfg="MC_C05.cfg", thorough_cfg="MC_C05_thorough.cfg", workers=8),
         dict(module="MC_C05", quick_cfg="MC_C05_control.cfg", expect_violation=True, coverage=False, workers=8),
